@@ -165,6 +165,11 @@ FIXED_PAIRS = [
      _FP + "fn main() {\n    const f: f64 = 2.5;\n    let g: f64 = f * 2.0;\n    io::Println(g);\n}\n"),
     ("float-if-true", "wrap-if-true", _FP + "fn main() {\n    let f: f64 = 1.5;\n    io::Println(f + 0.25);\n}\n",
      _FP + "fn main() {\n    let f: f64 = 1.5;\n    if true {\n        io::Println(f + 0.25);\n    }\n}\n"),
+    ("final-return-in-if-true", "wrap-if-true", _FP + "fn one() -> i32 {\n    return 1;\n}\nfn main() {\n    io::Println(one());\n}\n",
+     _FP + "fn one() -> i32 {\n    if true {\n        return 1;\n    }\n}\nfn main() {\n    io::Println(one());\n}\n"),
+    ("catch-handler-return-in-if-true", "wrap-if-true",
+     _FP + "fn safediv(a: i32, b: i32) -> str ! i32 {\n    if b == 0 { return \"div by zero\"!; }\n    return a / b;\n}\nfn main() {\n    safediv(1, 0) catch e { io::Println(e); return; };\n    io::Println(999);\n}\n",
+     _FP + "fn safediv(a: i32, b: i32) -> str ! i32 {\n    if b == 0 { return \"div by zero\"!; }\n    return a / b;\n}\nfn main() {\n    safediv(1, 0) catch e { if true { io::Println(e); return; } };\n    io::Println(999);\n}\n"),
     ("float-bind-subexpression", "bind-fresh-let", _FP + "fn main() {\n    let a: f64 = 3.0;\n    io::Println((a * 2.0) + 1.0);\n}\n",
      _FP + "fn main() {\n    let a: f64 = 3.0;\n    let t: f64 = a * 2.0;\n    io::Println(t + 1.0);\n}\n"),
 ]
@@ -269,6 +274,10 @@ def main():
                     # one defect, one key: the borrow checker keeps a loan alive up to the outer statement that contains its last use, so statements
                     # moved into an `if true { }` block together see the loan although its last use has passed
                     vkey = "verdict:wrap-if-true:loan-kept-to-end-of-wrapped-statement:" + target
+                if "wrap" in vk and rb.accepted and errs and all(("catch handler must return early" in d[2] or "not all code paths" in d[2]) for d in errs):
+                    # one defect, one key: the return analysis takes no account of constant conditions, so a `return` that ends a non-void function or
+                    # a catch handler, once wrapped in `if true { }`, leaves an end the analysis believes reachable
+                    vkey = "verdict:wrap-if-true:return-analysis-ignores-constant-condition:" + target
                 if "lit" in vk and rb.accepted and errs and all(("mismatched types in arithmetic: &" in d[2]) for d in errs):
                     # one defect, one key: arithmetic reads through a reference only when the other operand is a literal
                     vkey = "verdict:reference-operand-needs-literal:" + target
